@@ -244,10 +244,6 @@ func DecodeAll(pfxData []byte, password string) (privateKey interface{}, certifi
 	for _, bag := range bags {
 		switch {
 		case bag.Id.Equal(oidCertBag):
-			if certificate != nil {
-				err = errors.New("go-pkcs12: expected exactly one certificate bag")
-			}
-
 			certsData, err := decodeCertBag(bag.Value.Bytes)
 			if err != nil {
 				return nil, nil, err
@@ -264,7 +260,7 @@ func DecodeAll(pfxData []byte, password string) (privateKey interface{}, certifi
 
 		case bag.Id.Equal(oidPKCS8ShroundedKeyBag):
 			if privateKey != nil {
-				err = errors.New("go-pkcs12: expected exactly one key bag")
+				return nil, nil, errors.New("go-pkcs12: expected exactly one key bag")
 			}
 
 			if privateKey, err = decodePkcs8ShroudedKeyBag(bag.Value.Bytes, encodedPassword); err != nil {
@@ -306,7 +302,7 @@ func Decode(pfxData []byte, password string) (privateKey interface{}, certificat
 		switch {
 		case bag.Id.Equal(oidCertBag):
 			if certificate != nil {
-				err = errors.New("go-pkcs12: expected exactly one certificate bag")
+				return nil, nil, errors.New("go-pkcs12: expected exactly one certificate bag")
 			}
 
 			certsData, err := decodeCertBag(bag.Value.Bytes)
@@ -325,7 +321,7 @@ func Decode(pfxData []byte, password string) (privateKey interface{}, certificat
 
 		case bag.Id.Equal(oidPKCS8ShroundedKeyBag):
 			if privateKey != nil {
-				err = errors.New("go-pkcs12: expected exactly one key bag")
+				return nil, nil, errors.New("go-pkcs12: expected exactly one key bag")
 			}
 
 			if privateKey, err = decodePkcs8ShroudedKeyBag(bag.Value.Bytes, encodedPassword); err != nil {
